@@ -1,0 +1,8 @@
+//go:build !verif
+
+// Package verifhook marks crash points for the verification harness under /verif.
+// Without the build tag `verif` Point is an empty function the compiler inlines away.
+package verifhook
+
+// Point marks a named crash point. It does nothing in normal builds.
+func Point(string) {}
